@@ -111,7 +111,11 @@ def rdOp : Rd (Option Op) := do
   | "rv" => return some (.input [])
   | _ => return none
 
-def parseOp (s : String) : Option Op := (rdOp.run (words s)).1
+/-- `lv <op>`: the manipulator is a NAMED object streamed as an lvalue (`auto m = move_cursor(p); term << m;`) instead of
+    a temporary – a manipulator is a value, so for the model it is the same operation -/
+def parseOp (s : String) : Option Op :=
+  let ws := words s
+  (rdOp.run (if ws.head? = some "lv" then ws.drop 1 else ws)).1
 
 /-- parse `bits ; op ; op …` -/
 def parseScript (rest : String) : Behaviour × List Op :=
